@@ -29,12 +29,12 @@ def run(ctx, props=PROPS, random_only=False, nrand=None, leg=None):
     units = []
     if not berr:
         import randschema
-        specs = ([] if random_only else repo_corpus(quick)) + randschema.make_specs(ctx, nrand or (8 if quick else 60), gen_cls=randschema.GenR)
+        specs = ([] if random_only else repo_corpus(quick)) + randschema.make_specs(ctx, nrand or (8 if quick else 24), gen_cls=randschema.GenR)
         units = prepare_units(ctx, specs, bins)
         leg.run(units)
         if own_leg:
             leg.run_extra(bins["verifdump"], 40 if quick else 400)
-    nvals = 16 if quick else 150
+    nvals = 16 if quick else 48
     stats = {"schemas": 0, "types": 0, "values": 0, "rw_ops": 0, "go_rand_values": 0, "budget_skips": 0,
              "model_enc_none": 0, "kernel_rejected": 0, "wf_false": 0}
     import random
